@@ -71,6 +71,22 @@ func pathsTo(from, to *ssa.BasicBlock, visit func(p pathAtoms) bool) (n int, ok 
 			}
 			if i != nil && b.Succs[0] != b.Succs[1] {
 				v, p := unNot(i.Cond, si == 0)
+				// prune infeasible paths in the finite domain: the same SSA
+				// boolean cannot take both values on one path (SSA values are
+				// immutable; acyclic paths never re-execute the definition)
+				contra := false
+				for _, a := range atoms {
+					if a.v == v && a.pos != p {
+						contra = true
+						break
+					}
+				}
+				if cb, isC := constBool(v); isC && cb != p {
+					contra = true
+				}
+				if contra {
+					continue
+				}
 				atoms = append(atoms, atom{v, p})
 				dfs(s)
 				atoms = atoms[:len(atoms)-1]
